@@ -2,16 +2,50 @@
 from props import ModuleCheck, T, bundled
 
 NFT_CLAUSES = ["C14_Owner", "C14_ActOnlyOwner", "C14_OthersUntouched", "C14_MintRestricted",
-               "C14_UpdateRestricted", "C14_ClassHandover", "C14_Ids", "C14_Supply", "Rejected_NoEffect"]
+               "C14_UpdateRestricted", "C14_ClassHandover", "C14_Ids", "C14_Supply", "Rejected_NoEffect",
+               # round 7: the same statements read off the raw store (token records, owner keys, owner index of
+               # every address, supply counters) next to the query results
+               "C14_StoreOwner", "C14_StoreSupply"]
 
-NFT_RND = T([dict(n=10, len=30, procs=8, cfg="users=3"), dict(n=6, len=40, procs=3, cfg="users=4")],
-            [dict(n=80, len=40, procs=10, cfg="users=3"), dict(n=50, len=60, procs=4, cfg="users=4")])
+# negative probing / unusual inputs (round 7): antecedents exercised on every run by scenarios/nft_probe.ndjson
+# (written by scenarios/nft_mk_probe.py; driver cfg pre=1 = the IBC-style class "ibc/abc" in the genesis state)
+NFT_PROBE_REQUIRED = [
+    "issue_bad_id_rej", "issue_keyword_rej", "issue_sentinel_id_rej", "issue_len101_ok", "issue_len102_rej",
+    "issue_case_variant_ok", "issue_prefix_ok", "mint_ibc_rej", "ibc_edit_ok", "ibc_transfer_ok", "ibc_burn_ok",
+    "ibc_handover_ok", "ibc_stranger_rej", "mint_bad_token_id_rej", "mint_sentinel_token_id_rej",
+    "mint_len101_token_ok", "mint_len102_token_rej", "mint_uri256_ok", "mint_uri257_rej", "edit_uri257_rej",
+    "transfer_uri257_ok", "mint_badjson_rej", "edit_badjson_rej", "transfer_badjson_rej",
+    "mint_sentinel_name_ok", "mint_to_module_ok", "transfer_to_module_ok", "handover_to_module_ok",
+    "module_sender_rej", "module_owned_token_rej", "mint_prefix_token_ok", "mint_case_token_ok",
+    "mint_token_named_as_class_ok", "op_prefix_token_rej", "op_case_token_rej", "op_prefix_class_rej",
+    "op_case_class_rej", "op_other_class_token_rej", "edit_burned_rej", "transfer_burned_rej",
+    "burn_burned_rej", "exowner_on_burned_rej", "exowner_on_moved_rej", "edit_never_minted_rej",
+    "transfer_never_minted_rej", "burn_never_minted_rej", "op_no_class_rej", "mint_no_class_rej",
+    "handover_no_class_rej", "creator_on_foreign_token_rej", "token_owner_handover_rej",
+    "excreator_handover_rej", "remint_other_owner", "remint_after_handover", "mint_restricted_empty_rej",
+    "edit_each_field", "edit_all_keep_ok", "transfer_keep_all_restricted_ok", "handover_to_self_ok",
+    "issue_by_module_rej", "probe_state_rej"]
+
+# random histories mix "sensible" events with probes (every message x object state x role x ids of the wrong kind,
+# harness/cmd/nft/random.go; probe=<pct>, default 35); pre=1 starts from a genesis state holding an IBC-style class
+NFT_RND = T([dict(n=10, len=30, procs=5, cfg="users=3"), dict(n=10, len=30, procs=4, cfg="users=3,pre=1,uri257=1"),
+             dict(n=6, len=40, procs=3, cfg="users=4,pre=1,probe=60,uri257=1")],
+            [dict(n=80, len=40, procs=6, cfg="users=3"), dict(n=80, len=40, procs=6, cfg="users=3,pre=1"),
+             dict(n=50, len=60, procs=4, cfg="users=4,pre=1,probe=60,uri257=1")])
 # multi-message transactions (runs of one signer's messages delivered as one real transaction)
 bundled(NFT_RND)
-NFT_GEN = T([dict(cfg="GEN_NFT.cfg", num=10, depth=16, seeds=8)],
-            [dict(cfg="GEN_NFT.cfg", num=60, depth=20, seeds=14)])
+# second generator mode (round 7, negative probing): GenSpecP over a universe of related / odd ids, the IBC-style
+# class and the module account; every behaviour ends with four events the specification REJECTS; the replay's
+# epilogue (every token moved and burned by the owner the REAL store records, every class handed over by its
+# recorded creator) follows up whatever the code accepted
+NFT_GEN = T([dict(cfg="GEN_NFT.cfg", num=10, depth=16, seeds=6),
+             dict(cfg="GEN_NFT_probe.cfg", num=6, depth=22, seeds=4, driver_cfg="users=3,pre=1")],
+            [dict(cfg="GEN_NFT.cfg", num=60, depth=20, seeds=14),
+             dict(cfg="GEN_NFT_probe.cfg", num=40, depth=26, seeds=8, driver_cfg="users=3,pre=1"),
+             dict(cfg="GEN_NFT_probe.cfg", num=40, depth=16, seeds=3, driver_cfg="users=3,pre=1")])
 NFT_MC = T([dict(cfg="MC_NFT.cfg", timeout=900, heap="4g")], [dict(cfg="MC_NFT_big.cfg", timeout=3400, heap="4g")])
-NFT_SCN = [dict(file="scenarios/nft_coverage.ndjson", cfg="users=3")]
+NFT_SCN = [dict(file="scenarios/nft_coverage.ndjson", cfg="users=3"),
+           dict(file="scenarios/nft_probe.ndjson", cfg="users=3,pre=1")]
 
 # histories recorded (VERIF_RECORD_DIR) for the cross-module checks C11 / C12
 RECORD = [dict(binary="nft", n=T(3, 12), len=30, cfg="users=3" + ",bundle=30")]
@@ -25,11 +59,13 @@ PROPS = {
                                  "transfer_ok", "transfer_changes_ok", "transfer_restricted_changes_rej",
                                  "transfer_restricted_plain_ok", "transfer_self", "transfer_stranger_rej",
                                  "burn_ok", "burn_stranger_rej", "handover_ok", "handover_stranger_rej",
-                                 "handover_then_mint", "old_creator_mint_rej"],
+                                 "handover_then_mint", "old_creator_mint_rej"] + NFT_PROBE_REQUIRED,
                        gen_cfg="users=3",
                        assumptions=["TLC 1.8, SANY, CommunityModules Json", "Go toolchain, cosmos-sdk baseapp",
                                     "harness projection through the module's own query endpoints",
-                                    "closed universe of accounts, class ids and token ids per trace"]),
+                                    "harness scan of the nft store (x/nft key layout) for the C14_Store* clauses",
+                                    "closed universe of accounts per trace (other owners appear by address in the store scan)",
+                                    "id validation outcomes tabulated in NFT.tla for the ids the drivers use"]),
 }
 
 TEXT = {
@@ -45,7 +81,16 @@ TEXT = {
              "and re-mint, handover then mint, empty / sentinel / changed metadata). After every transaction "
              "the harness queries Denom, NFT, NFTsOfOwner, Supply(class), Supply(class, owner) and Collection "
              "over the closed universe; TLC validates every event against the clauses (verdict) and against "
-             "the specification's step function (drift).",
+             "the specification's step function (drift). Round 7 (negative probing): the store itself is scanned "
+             "after every event (class keys, token records, owner keys, owner index of every address, supply "
+             "counters) and the clauses StoreOwner / StoreSupply state one-owner-per-token and reported supply = "
+             "number of token records = sum of holdings on it; the queries are read page by page (two entries a "
+             "page); drivers probe every message x object state (class not issued / each flag combination / "
+             "handed over; token never minted / moved / burned / minted again / under another class only) x role "
+             "(owner, previous owner, creator, previous creator, stranger, module account) x ids of the wrong kind "
+             "(prefixes, case variants, IBC-style and reserved ids, length limits, the sentinel as id) and the "
+             "sentinel / out-of-range values in every metadata field; a second generator mode ends every "
+             "behaviour with four rejected events; an epilogue computed from the real store closes every history.",
         note="Trusted: TLC/SANY/CommunityModules Json, Go toolchain, the harness projection (query endpoints "
              "of the module). Recipients and owners are accounts of the closed universe. X14_* clauses "
              "(named recipient becomes owner/creator, collection = per-token view, registered supply "
